@@ -44,7 +44,8 @@ BinOps         == OperatorSyms \ {"()", "[]"}
 \* declared earlier in the module; bases are declared classes; every class starts with a constructor
 Call == Profile = "call"
 Exec == Profile \in {"exec", "call"}
-LibTypes == {<<"Key">>, <<"gtsam", "Pose3">>, <<"gtsam", "Point3">>, <<"lib", "geo", "Shape">>, <<"Vector">>}
+LibTypes == {<<"Key">>, <<"gtsam", "Pose3">>, <<"gtsam", "Point3">>, <<"lib", "geo", "Shape">>, <<"Vector">>,
+             <<"Tools", "Index">>, <<"POSEs", "Frame">>, <<"Values", "Entry">>, <<"Util", "Id">>}   \* namespaces that begin with a parameter's spelling
 LibTemplates == {<<"lib", "Seq">>, <<"lib", "Box">>}   \* (std::vector rejects const / reference element types)
 \* a literal that initialises a value of the given basic type
 LiteralFor(n) == CASE n = "int" -> "-1" [] n = "size_t" -> "3" [] n = "double" -> "1.5" [] n = "float" -> "2.5f" [] n = "bool" -> "true"
